@@ -299,8 +299,15 @@ impl<F: Float, L: Label + std::fmt::Debug> TreeNode<F, L> {
                 let w = weight_on_right_side / total_weight;
                 let score = w * left_score + (1.0 - w) * right_score;
 
-                // Take the midpoint from this value and the next one as split_value
-                split_value = (split_value + sorted_index.sorted_values[i + 1].1) / F::cast(2.0);
+                // Take the midpoint from this value and the next one as split_value. For two
+                // neighbouring floating point values the midpoint can round up onto the next
+                // value; the threshold has to stay below it, so that `<= split_value` selects
+                // exactly the observations that were moved to the left subtree so far
+                let next_value = sorted_index.sorted_values[i + 1].1;
+                let midpoint = (split_value + next_value) / F::cast(2.0);
+                if midpoint < next_value {
+                    split_value = midpoint;
+                }
 
                 // override best indices when score improved
                 best = match best.take() {
